@@ -522,3 +522,24 @@ def check_replacer_kinds(ctx, rep):
     else:
         rep.bad("T-VERBATIM", "T-VERBATIM:replacer-default-is-to_string", body.where(), "no to_string() of the looked-up value: kinds other than Ref / Str are not substituted by their display text")
     return n
+
+
+
+def check_localiser_forwarded(ctx, rep):
+    """`dict_to_dis(dict, localiser, default)` hands *its* localiser on to dis_macro, so `$<key>` inside a record's disMacro is
+    looked up the same way as for a disKey: the third argument of the dis_macro call is the parameter, not a stand-in closure"""
+    prog = ctx.prog
+    b = next((x for x in prog.bodies.values() if strip_generics(x.id).endswith("val::dict::dict_to_dis") and x.rec["kind"] != "Closure"), None)
+    if b is None:
+        rep.gap("dict_to_dis", "-", "not found")
+        return 0
+    sites = [(bi, t) for bi, t in b.calls() if strip_generics(mir.callee_name(t) or "").endswith("dis_macro::dis_macro")]
+    good = bool(sites)
+    for bi, t in sites:
+        if len(t["args"]) < 3 or not re.fullmatch(r"&?_2\**", repr(G.describe(b, t["args"][2]))):
+            good = False
+    if good:
+        rep.ok("R-PRECEDENCE", "dict_to_dis:localiser-forwarded", b.where(sites[0][0]), "dis_macro receives the caller's localisation function")
+    else:
+        rep.bad("R-PRECEDENCE", "R-PRECEDENCE:dict_to_dis:localiser-forwarded", b.where(sites[0][0]) if sites else b.where(), "dict_to_dis does not pass its localisation function to dis_macro (%s): `$<key>` in a disMacro is never localised" % ([repr(G.describe(b, t["args"][2]))[:60] for _bi, t in sites if len(t["args"]) > 2] or "no dis_macro call"))
+    return 1
